@@ -118,6 +118,13 @@ def float_cases(ctx):
     for e in range(0, 2047):
         for m in (0, 1, (1 << 52) - 1):
             f64.add((e << 52) | m)
+    # denormals of every width (a random 64-bit pattern is a denormal once in 2048): powers of two, their neighbours, random mantissas of every length
+    for k in range(0, 52):
+        f64.update([1 << k, (1 << k) + 1, (1 << (k + 1)) - 1, (1 << 63) | (1 << k)])
+        for _ in range(40 if ctx.quick() else 2000):
+            f64.add((1 << k) | r.getrandbits(k))
+    for k in range(0, 23):
+        f32.update([1 << k, (1 << k) + 1, (1 << (k + 1)) - 1])
     for e in range(0, 255):
         for m in (0, 1, (1 << 23) - 1):
             f32.add((e << 23) | m)
@@ -182,8 +189,9 @@ def run(ctx):
             fbad.append((l, o))
     swept = 0
     if not ctx.quick():
-        chunk = 2**32 // 64
-        sw = ["num flrange32 x %d %d" % (i * chunk, chunk) for i in range(64)]
+        # small chunks: the harness has a 30 s watchdog per operation, and a loaded machine must not turn a slow chunk into a failure
+        chunk = 2**32 // 2048
+        sw = ["num flrange32 x %d %d" % (i * chunk, chunk) for i in range(2048)]
         with ThreadPoolExecutor(16) as ex:
             rs = list(ex.map(lambda l: run_lines(hf, [l], 3000), sw))
         for l, (rc, o, e) in zip(sw, rs):
